@@ -2,8 +2,8 @@ package checks
 
 import (
 	"fmt"
-	"strings"
 	"net/netip"
+	"strings"
 	"time"
 
 	"verif/harness/drive"
